@@ -19,6 +19,7 @@ uint64_t vf_total(const std::string& mode) {
     return t;
   }
   if (mode == "hex") return 4 * 256 * 2;
+  if (mode == "keywords") return 3 * 5 * 256 + 3 * 32;
   return 0;
 }
 
@@ -119,6 +120,28 @@ void vf_run_case(Ctx& c, uint64_t index) {
     judge(c, "[" + text + "]", 10, "unicode-escape-digit");
     c.nontrivial(index);
     if (c.want_sample()) c.sample(printable(text));
+    return;
+  }
+  if (c.mode == "keywords") {
+    // the literals true / false / null with every byte value at every position, and with every subset of letters in the other case,
+    // as top-level value, array element, member value and after a comma (parse path), judged by the dialect recogniser
+    static const char* kws[] = {"true", "false", "null"};
+    std::string kw;
+    if (index < 3 * 5 * 256) {
+      kw = kws[index / 1280]; size_t pos = (size_t)((index / 256) % 5); int b = (int)(index % 256);
+      if (pos >= kw.size() || b == 0) return;
+      kw[pos] = (char)b;
+    } else {
+      uint64_t i2 = index - 3 * 5 * 256; kw = kws[i2 / 32]; unsigned mask = (unsigned)(i2 % 32);
+      for (size_t k = 0; k < kw.size(); k++) if (mask & (1u << k)) kw[k] = (char)(kw[k] ^ 0x20);
+    }
+    judge(c, kw, 10, "keyword-variant");
+    judge(c, "[" + kw + "]", 10, "keyword-variant");
+    judge(c, "{\"a\":" + kw + "}", 10, "keyword-variant");
+    judge(c, "[1," + kw + ",2]", 10, "keyword-variant");
+    judge(c, "[" + kw, 10, "keyword-variant");
+    c.nontrivial(index);
+    if (c.want_sample()) c.sample(printable(kw));
     return;
   }
   // generated, mutated and random texts
